@@ -93,6 +93,17 @@ func genGuards() {
 	}
 	genGuardFile("GuardsComposite.lean", comp)
 
+	tlv := []guardSite{
+		{Name: "tlv_unpackSubfieldsByTag", File: "field/composite.go", Recv: "Composite", Func: "unpackSubfieldsByTag",
+			Params: []string{"offset", "dlen", "fieldLength", "read", "start", "known:Bool", "skip:Bool"},
+			Map: ids(map[string]string{"len(data)": "dlen", "ok": "known", "f.skipUnknownTLVTags()": "skip"},
+				"offset", "fieldLength", "read", "start")},
+		{Name: "bitmapped_unpackSubfieldsByBitmap", File: "field/composite.go", Recv: "Composite", Func: "unpackSubfieldsByBitmap",
+			Params: []string{"i", "bitmapLen", "isSet:Bool", "found:Bool"},
+			Map: ids(map[string]string{"f.bitmap().Len()": "bitmapLen", "f.bitmap().IsSet(i)": "isSet", "ok": "found"}, "i")},
+	}
+	genGuardFile("GuardsTlv.lean", tlv)
+
 	bm := map[string]string{"f.spec.DisableAutoExpand": "dae", "len(f.data)": "dataLen", "f.bitmapLength": "blockLen"}
 	bitmap := []guardSite{
 		{Name: "bitmap_IsBitmapPresenceBit", File: "field/bitmap.go", Recv: "Bitmap", Func: "IsBitmapPresenceBit",
